@@ -5,7 +5,7 @@ driver for the framer clock model (engine `floclock`, C11)
 
   `runf <P> <nticks> <nframes> frame*`   τ = Float, every number is the 16 hex digit bit pattern
   `runi <P> <nticks> <nframes> frame*`   τ = Int   (exact time in units of a quantum), decimal integers
-    frame := `<nverbs> verb*`
+    frame := `<over idx|-> <nverbs> verb*`      (`frame Fi in Fover`)
     verb  := `T <num>` (timeout) | `R <num>` (repeat) | `G <far> <nneeds> need*`   far := `next`|`me`|`<idx>`
     need  := `E <cmp> <num>` (elapsed) | `C <cmp> <nat>` (recurred)    cmp := ge gt le lt eq ne
 reply: `ERR build`, or per tick `<active idx><*|.>:<elapsed>:<recurred>:<store stamp>`  (`*` = outline changed in this tick)
@@ -82,6 +82,12 @@ def verbP {τ : Type} (num : P τ) : P (Verb τ) := fun ts => do
     return (.go far ns, r)
   | _ => none
 
+def frameP {τ : Type} (num : P τ) : P (FrameSrc τ) := fun ts => do
+  let (o, r) ← tok ts
+  let over ← (if o = "-" then some none else o.toNat?.map some)
+  let (vs, r) ← many (verbP num) r
+  return (⟨over, vs⟩, r)
+
 def showObs {τ : Type} (sh : τ → String) (o : Obs τ) : String :=
   toString o.after.active ++ (if o.entered then "*" else ".") ++ ":" ++ sh o.after.elapsed ++ ":" ++
     toString o.after.recurred ++ ":" ++ sh o.now
@@ -90,13 +96,16 @@ def runLine {τ : Type} [Add τ] [Sub τ] [LE τ] [LT τ] [DecidableLE τ] [Deci
     (num : P τ) (sh : τ → String) (ts : List String) : Option String := do
   let (per, r) ← num ts
   let (nticks, r) ← nat r
-  let (p, r) ← many (many (verbP num)) r
+  let (p, r) ← many (frameP num) r
   if r ≠ [] then none
   if p.isEmpty then none
   match resolve p with
   | .error _ => return "ERR build"
   | .ok prog =>
-    return " ".intercalate ((run prog (stamps per nticks)).map (showObs sh))
+    -- over links must point at frames and form a forest (the real builder hangs on a cycle)
+    if !(prog.all (fun f => match f.over with | some o => o < prog.length | none => true)) then none
+    if !(acyclic prog) then none
+    return " ".intercalate ((run (transOf prog) (stamps per nticks)).map (showObs sh))
 
 def step (_ : Unit) (line : String) : Unit × String :=
   match words line with
